@@ -703,9 +703,9 @@ def rule_shift_terminal(chk, prog):
 
 def run(chk):
     prog = chk.load()
-    rule_writeback(chk, prog, chk.tier)
-    rule_dummy_flagged(chk, prog)
-    rule_zero_length(chk, prog)
-    rule_shift_terminal(chk, prog)
-    rule_reroute_lists(chk, prog)
-    rule_object_lists(chk, prog)
+    chk.guard(rule_writeback, chk, prog, chk.tier)
+    chk.guard(rule_dummy_flagged, chk, prog)
+    chk.guard(rule_zero_length, chk, prog)
+    chk.guard(rule_shift_terminal, chk, prog)
+    chk.guard(rule_reroute_lists, chk, prog)
+    chk.guard(rule_object_lists, chk, prog)
